@@ -18,7 +18,8 @@
      recovered d               reopen after the process died: durable map, empty cache
    Tan record layer (Model/TanRecord.v): frame / replay, see below. *)
 From DB Require Import Base.Bytes Gen.GenC09 Gen.GenC10 Model.LogStoreSpec Model.KV Model.LogDBPlain
-  Model.LogDBBatched Model.LogDBFaulty Proofs.LogDBFaulty.
+  Model.LogDBBatched Model.LogDBFaulty Model.TanRecord Proofs.LogDBPlain Proofs.LogDBFaulty
+  Proofs.LogDBFaultySpec Proofs.TanRecord.
 Open Scope N_scope.
 
 (* ERROR PROPAGATION.  If any KV call (read or write) made by an operation of the current
@@ -88,6 +89,70 @@ Theorem crash_atomic_kv : forall b ft ops k r d',
      (r <> FOk /\ (k < length ops)%nat /\ crash_state b p (nth_error ops k) (d_kv d'))).
 Proof. exact crash_atomic_kv_proved. Qed.
 Print Assumptions crash_atomic_kv.
+
+(* ONE BATCH PER SAVE.  Regenerated facts: db.saveRaftState contains exactly one
+   CommitWriteBatch call, its helpers contain no other KV write call, commits are synced
+   (pebble.WriteOptions{Sync: true}).  Model: whatever the fault, the durable map after a
+   SaveRaftState is the old one or the old one with ONE write batch applied.
+   _partial: that the implementation's call trace of a save consists of reads followed by at
+   most one CommitWriteBatch whose contents are the model's batch is not a theorem; it is what
+   the differential run compares on every call of every case (the `| calls` column). *)
+Theorem save_is_one_batch_partial :
+  (c10_save_raft_state_commit_calls = 1 /\ c10_save_path_other_write_calls = 0 /\ c10_commit_sync = true) /\
+  forall b d us r d', f_save_raft_state b (fl_save cur_flags) (fl_batch cur_flags) d us = (r, d') ->
+    d_kv d' = d_kv d \/ exists w, d_kv d' = kv_commit (d_kv d) w.
+Proof. exact save_is_one_batch_proved. Qed.
+Print Assumptions save_is_one_batch_partial.
+
+(* THE RECOVERED LOG (plain format, contract-abiding runs: wf_ops = what the raft core
+   guarantees, Model/LogStoreSpec.v).  After any fault at any KV call the recovered store
+   refines the logical log s after the acknowledged operations or after the acknowledged
+   operations plus the one in flight (log_ok, Proofs/LogDBFaultySpec.v): every contract-abiding
+   IterateEntries / ReadRaftState / GetSnapshot answers as the logical log does; per replica the
+   log is gap-free (contig from marker+1), every entry of it is stored, the recorded max index is
+   its last index, and the hard state record is the logical one - i.e. one that was written.
+   (RemoveNodeData in flight is excluded here: see crash_atomic_kv for its intermediate state.) *)
+Theorem recovered_log_gap_free_and_ends_at_max : forall ft ops k r d',
+  wf_ops spec_init ops = true ->
+  f_run false cur_flags (fdb_init ft) ops = (k, r, d') ->
+  (forall n, nth_error ops k <> Some (ORemNode n)) ->
+  exists s, (s = spec_run spec_init (firstn k ops) \/
+             (r <> FOk /\ s = spec_run spec_init (firstn (S k) ops))) /\
+            log_ok (recovered d') s.
+Proof. exact recovered_log_proved. Qed.
+Print Assumptions recovered_log_gap_free_and_ends_at_max.
+
+(* TAN RECORD LAYER (Model/TanRecord.v; ck = the checksum function, a parameter of which
+   only ck b < 2^32 is used; lognum = the reader's log number).
+   _partial: proved for logs whose records are all written as full chunks inside the first
+   32 KB block ([fits]); records split into first/middle/last chunks and the zero padding at
+   block ends are compared differentially only (real writer/reader vs the extracted model,
+   frames byte for byte, cuts around every block boundary). *)
+Theorem tan_replay_roundtrip_partial : forall ck lognum, (forall b, ck b < 2 ^ 32) ->
+  forall rs, fits rs -> replay ck lognum (frame ck rs) = (rs, VEof).
+Proof. exact tan_replay_roundtrip_fits. Qed.
+Print Assumptions tan_replay_roundtrip_partial.
+
+(* Covered corruption: the log is CUT (truncated) at any byte inside its last record -
+   inside the 7 byte chunk header or inside the payload.  Replay returns exactly the complete
+   records and stops with a verdict that open() treats as a torn tail (recoverable: EOF,
+   zeroed / invalid chunk, unexpected EOF), never with the checksum error that makes open()
+   fail.  Not covered by a theorem: garbage (other than absence) after the last complete
+   record; there the reader can stop with VCrc (see the report: ErrCRCMismatch is not in
+   IsInvalidRecord) - compared differentially (tangarb cases). *)
+Theorem tan_replay_ignores_torn_tail_partial : forall ck lognum, (forall b, ck b < 2 ^ 32) ->
+  forall rs r cut, fits (rs ++ [r]) -> cut < hdr + nlen r ->
+  exists v, replay ck lognum (frame ck rs ++ takeN cut (chunk ck ty_full r)) = (rs, v) /\
+            recoverable v = true.
+Proof. exact tan_replay_ignores_torn_tail_fits. Qed.
+Print Assumptions tan_replay_ignores_torn_tail_partial.
+
+Example c10_example_tan :
+  let ck := fun b : bytes => 7 + nlen b in
+  fits [[1; 2; 3]; []; [9]] /\
+  replay ck 0 (frame ck [[1; 2; 3]; []; [9]]) = ([[1; 2; 3]; []; [9]], VEof) /\
+  replay ck 0 (takeN 20 (frame ck [[1; 2; 3]; []; [9]])) = ([[1; 2; 3]; []], VInvalid).
+Proof. vm_compute. repeat split; try reflexivity; discriminate. Qed.
 
 (* non-vacuity: the repaired model fails the witnesses of F1 and F2; a crash after the
    commit of the second save of a run leaves acked + in flight *)
